@@ -1,5 +1,6 @@
 def setup(chk):
     chk.add_tu('C11.cpp')
+    chk.add_tu('C11h.cpp')   # std::string / std::vector destinations holding stale elements
     chk.add_tu('C11x.cpp')
     if chk.tier == 'thorough':
         chk.add_tu('C11t.cpp')
